@@ -799,6 +799,13 @@ def _check_scenarios(ctx, res, scenarios, origin, parallel=12):
             res.violations.append(dict(case=key, what="terminate(timeout=%s) took %.2f s, bound %.2f s (%d rounds)" % (T, r["elapsed"], bound, rounds), impl=r, finding=None))
         elif r["len"] != 0 or r["tojoin"] != 0:
             res.violations.append(dict(case=key, what="group not empty after terminate: len=%d, to join=%d" % (r["len"], r["tojoin"]), impl=r, finding=None))
+        elif not T and not r["extra_alive"] and all("//via=" in mm["spec"] for mm in sc["members"] if mm["id"] in r["alive"]):
+            # terminate(timeout=0) waits for nothing: the kill requests of proxied members travel through their
+            # via-gateway while that one is being killed as well — whether they arrive is a race the statement ("within a
+            # small multiple of the timeout") does not decide at T = 0.  Judged at T = 0: return, emptiness, the group's
+            # own children.
+            res.traces += 1
+            res.stat("timeout0_proxied_member_survived_kill_race")
         elif r["alive"] or r["extra_alive"]:
             res.violations.append(dict(case=key, what="processes left behind by terminate: %r %r (killed by the harness)" % (r["alive"], r["extra_alive"]), impl=r,
                                        finding=classify(sc, r, "left-behind")))
